@@ -2139,6 +2139,7 @@ coap_read_session(coap_context_t *ctx, coap_session_t *session, coap_tick_t now)
     ssize_t bytes_read = 0;
 
     /* WebSocket layer passes us the whole packet */
+next_ws_frame:
     bytes_read = session->sock.lfunc[COAP_LAYER_SESSION].l_read(session,
                                                                 packet->payload,
                                                                 packet->length);
@@ -2164,6 +2165,14 @@ coap_read_session(coap_context_t *ctx, coap_session_t *session, coap_tick_t now)
 
       coap_dispatch(ctx, session, pdu);
       coap_delete_pdu(pdu);
+      /*
+       * The WebSocket layer hands over one frame at a time and can be holding
+       * the next one (or its start) in its frame header buffer.  No socket
+       * event is going to announce that, so look again.
+       */
+      if (session->state != COAP_SESSION_STATE_NONE && session->ws &&
+          session->ws->hdr_ofs > 0)
+        goto next_ws_frame;
       return;
     }
   } else {
